@@ -37,7 +37,8 @@ RetBody(rk) ==
 MkC(par) ==
   LET path == par[1]  site == par[2]  shape == par[3]  rk == par[4]
       \* the callee also declares a variable through the Go-side API (Runtime.Let) at its top level
-      calbody == <<T("cs"), Api("capi", "Let", "q2", Lit("apileak")), LetS("cl", "x2", Lit("cv")), P("cx2", Var("x2")), P("csv", Var("s")), P("cctx", Ctx),
+      \* the callee also writes through a SafeWriter: that goes where the rest of its output goes
+      calbody == <<T("cs"), Raw("craw", Lit("cw")), Api("capi", "Let", "q2", Lit("apileak")), LetS("cl", "x2", Lit("cv")), P("cx2", Var("x2")), P("csv", Var("s")), P("cctx", Ctx),
                    YieldS("cyi", "ib", <<>>, NoE), RangeS("crg", "none", "", "", "", ListE("slice", <<"q1">>), <<P("cri", Ctx)>>)>>
                  \o RetBody(rk) \o <<T("ce")>>
       cal  == CASE shape = "plain" -> Tm("cal", "", <<>>, calbody)
@@ -69,7 +70,7 @@ MkC(par) ==
                 [] site = "incifown"       -> <<IncIf("call", "calown"), YieldS("fy", "ib", <<>>, NoE)>>
                 \* one call site, a different template each time round
                 [] site = "includecomputed" -> <<RangeS("ccr", "none", "", "", "", ListE("slice", <<"cca", "ccb", "cal3", "cca">>), <<Incl("call", "@ctx")>>)>>
-      focal == <<T("f0")>> \o call \o <<P("fs", Var("s")), P("fctx", Ctx), P("fi2", IsSetE("x2")), P("fiq", IsSetE("q2")), T("f1")>>
+      focal == <<T("f0"), Raw("fr0", Lit("w0"))>> \o call \o <<Raw("fr1", Lit("w1")), P("fs", Var("s")), P("fctx", Ctx), P("fi2", IsSetE("x2")), P("fiq", IsSetE("q2")), T("f1")>>
       r    == Build(path, 1, focal)
       main == <<BlockS("ibd", "ib", <<>>, NoE, <<T("IB")>>), T("pre"), LetS("ls", "s", Lit("s0"))>> \o r.main \o
               <<P("zs", Var("s")), P("zctx", Ctx), P("zi2", IsSetE("x2")), P("ziq", IsSetE("q2")), P("zir", IsSetE("r")), T("post")>>
